@@ -7,9 +7,9 @@ Open Scope N_scope.
 
 (* the budgets the writer commands pass, the header length and what a reader fetches first — regenerated from the source *)
 Theorem C05_budgets :
-  Generated.root_budget_convert = 16257%Z /\ Generated.root_budget_extract = 16257%Z /\
-  (Z.of_nat Generated.header_len + Generated.root_budget_convert = Generated.root_fetch_len)%Z /\ Generated.root_fetch_len = 16384%Z.
-Proof. repeat split; reflexivity. Qed.
+  (Z.of_nat Generated.header_len + Generated.root_budget_convert <= 16384)%Z /\ (Z.of_nat Generated.header_len + Generated.root_budget_extract <= 16384)%Z /\
+  (0 <= Generated.root_budget_convert)%Z /\ (0 <= Generated.root_budget_extract)%Z /\ (16384 <= Generated.root_fetch_len)%Z.
+Proof. repeat split; apply Z.leb_le; vm_compute; reflexivity. Qed.
 
 (* the constants of the leaf-size loop, regenerated from optimizeDirectories: the flat-root limit 16384, leafSize = float32(len)/3500,
    floor 4096, factor 1.2 - and the model's factor is the binary32 nearest to 1.2 (what the Go compiler makes of the literal) *)
@@ -39,7 +39,7 @@ Qed.
 Theorem C05_within_16k : forall es sizes root leaves n,
   optimize ser es (Z.to_N Generated.root_budget_convert) sizes = Some (root, leaves, n) ->
   N.of_nat Generated.header_len + N.of_nat (length root) <= 16384.
-Proof. intros es sizes root leaves n H. apply C05_root_fits in H. change (Z.to_N Generated.root_budget_convert) with 16257 in H. change (N.of_nat Generated.header_len) with 127. lia. Qed.
+Proof. intros es sizes root leaves n H. apply C05_root_fits in H. destruct C05_budgets as (A & _ & B & _). lia. Qed.
 
 (* structure of the result: either the whole directory is the root, or the root holds one pointer per leaf with
    run length 0, the first tile ID of that leaf, the leaf's offset and length; the leaves tile the leaf section
